@@ -211,7 +211,9 @@ def updateArea (c : FCtx) (fs : FState) : FState × Bool :=
     | none => fs.pageBottom
     | some h => fs.pageBottom + c.area.marginHeight h
   if fs.cur.isEmpty then
-    ({ fs with areaH := some 0, pageBottom := pb1 - c.area.marginHeight 0 }, false)
+    -- an empty area is not rendered and takes no room: height back to 'auto' (repair 84e5b27; before it the
+    -- height was set to 0 and the area's margins/paddings/borders stayed subtracted from `page_bottom`)
+    ({ fs with areaH := none, pageBottom := pb1 }, false)
   else
     let box := areaLayout c.area c.pageH fs.cur
     ({ fs with areaH := some box.h, pageBottom := pb1 - box.marginHeight }, box.overflow)
